@@ -203,11 +203,14 @@ type Exec struct {
 	MaxPaths int
 	Verbose  bool
 	globals  map[*ssa.Global]*Obj
+	constMaps map[*ssa.Global]*constMap
+	constMapObjs map[*Obj]*MapObjV
 }
 
 func NewExec(p *Program, db *SpecDB) (*Exec, error) {
 	ex := &Exec{P: p, DB: db, UFs: map[string]*UFSig{}, varFacts: map[string]*Term{}, lazyObjs: map[string]*Obj{},
-		Assumptions: map[string]bool{}, StickyUsed: map[string]bool{}, MaxPaths: 4096, globals: map[*ssa.Global]*Obj{}}
+		Assumptions: map[string]bool{}, StickyUsed: map[string]bool{}, MaxPaths: 4096, globals: map[*ssa.Global]*Obj{},
+		constMaps: map[*ssa.Global]*constMap{}, constMapObjs: map[*Obj]*MapObjV{}}
 	if err := ex.declareSpecFuncs(); err != nil {
 		return nil, err
 	}
